@@ -387,12 +387,17 @@ _PURE_PREDICATES = {"isinstance", "hasattr", "callable", "issubclass"}
 
 
 def _flag_expr(e: ast.AST) -> bool:
-    """A side-effect free truth-valued expression over names, attributes and constants (isinstance / hasattr allowed)."""
+    """A side-effect free type / None guard over names, attributes and constants: isinstance / hasattr / callable calls and
+    'is (not)' comparisons, combined with and / or / not."""
     if not isinstance(e, (ast.Compare, ast.BoolOp, ast.UnaryOp, ast.Call)):
         return False
     if isinstance(e, ast.UnaryOp) and not isinstance(e.op, ast.Not):
         return False
     for y in ast.walk(e):
+        if isinstance(y, ast.Compare) and not all(isinstance(op, (ast.Is, ast.IsNot)) for op in y.ops):
+            return False  # only type / None guards are written out; value comparisons stay behind their flag
+        if isinstance(y, (ast.BinOp,)):
+            return False
         if isinstance(y, ast.Call):
             if not (isinstance(y.func, ast.Name) and y.func.id in _PURE_PREDICATES):
                 return False
